@@ -30,6 +30,20 @@ meta next <k>         next() on the (k mod n)-th live iterator, item kept as a g
 meta collect <k>      next() until None or a panic, items kept
                       -> items <vtable,..|-> end | items <..> panic <kind> | noop
 meta dropit <k>       drop the (k mod n)-th live iterator                          -> ok | noop
+meta nth <k> <n>      Iterator::nth(n) on the (k mod n)-th live iterator, item kept as a guard
+                      -> item <vtable> <same|moved> | none | panic .. | noop
+meta hint <k>         size_hint() of that iterator against the number of items that follow
+                      -> hint ok | hint bad | noop
+meta run <k> <ad> <co> <own>   a consuming call on that iterator itself (own = 1: the iterator is gone
+                      afterwards) or on `by_ref()` of it (own = 0), through the adapter
+                      <ad> = plain | skip:<n> | stepby:<n> (n > 0) | take:<n>, with the consumer
+                      <co> = collect | foreach | fold  (every item kept; a panic unwinds the partial
+                                                       result of collect / fold, not what for_each pushed)
+                                                       -> items <vtable,..|-> [moved ]end | items .. panic <kind>
+                           | last                      -> item <vtable> <same|moved> | none | panic ..
+                           | count                     -> count <n> | panic ..          (or noop)
+meta zip <k> <m>      that iterator (consumed) zipped with a fresh iter (m = 0) / iter_mut (m = 1),
+                      collected                      -> pairs <a:b,..|-> [moved ]end | pairs - panic .. | noop
 meta end              drop every guard and iterator                                -> ok
 meta probe            borrow flag of every present cell, by type: <ty>:<f|s|x> ..  (or `-`)
 ```
@@ -81,6 +95,17 @@ def parseCast (e : String) : Option (Nat × CastKind × Nat) :=
 looked at and found -/
 def foundBetween (t : MetaTable) (w : MWorld) (i j : Nat) : List Nat :=
   ((t.tys.drop i).take (j - i)).filter w.present
+
+def parseAdapter (a : String) : Option MetaTable.Adapter :=
+  match a.splitOn ":" with
+  | ["plain"] => some .plain
+  | ["skip", n] => n.toNat?.map .skip
+  | ["take", n] => n.toNat?.map .take
+  | ["stepby", n] =>
+    match n.toNat? with
+    | some (m + 1) => some (.stepBy m true)     -- `step_by(0)` panics in `core`: not a request
+    | _ => none
+  | _ => none
 
 def showPanic : MPanic → String
   | .badCast => "panic badcast"
@@ -167,6 +192,15 @@ def step (st : St) (ws : List String) : St × String :=
       else if op == "dropit" then
         if st.iters.isEmpty then (st, "noop") else
         ({ st with iters := eraseIdx' st.iters (n % st.iters.length) }, "ok")
+      else if op == "hint" then
+        if st.iters.isEmpty then (st, "noop") else
+        match st.iters[n % st.iters.length]? with
+        | none => (st, "bad-op")
+        | some it =>
+          let r := ((st.table.tys.drop it.index).filter st.world.present).length
+          let (lo, hi) := st.table.sizeHint it
+          let ok := lo ≤ r && (match hi with | none => true | some h => r ≤ h)
+          (st, if ok then "hint ok" else "hint bad")
       else if op == "next" then
         if st.iters.isEmpty then (st, "noop") else
         let k := n % st.iters.length
@@ -204,6 +238,84 @@ def step (st : St) (ws : List String) : St × String :=
            | none => s!"items {txt} end"
            | some e => s!"items {txt} {showPanic e}")
       else (st, "bad-op")
+  | ["nth", ks, ns] =>
+    match ks.toNat?, ns.toNat? with
+    | some kk, some n =>
+      if st.iters.isEmpty then (st, "noop") else
+      let k := kk % st.iters.length
+      match st.iters[k]? with
+      | none => (st, "bad-op")
+      | some it =>
+        let cast := castOf st.casts st.armed
+        let (w', it', o) := st.table.nth cast st.world it n
+        let st' := { st with world := w', iters := st.iters.set k it' }
+        match o with
+        | .none => (st', "none")
+        | .panic e => (st', showPanic e)
+        | .item p =>
+          let ty := st.table.slotTy it'.index
+          ({ st' with guards := st'.guards ++ [ty] }, s!"item {p.vtable} {same p (addrOf st.world ty)}")
+    | _, _ => (st, "bad-op")
+  | ["run", ks, ads, cos, owns] =>
+    match ks.toNat?, parseAdapter ads, owns.toNat? with
+    | some kk, some ad, some own =>
+      if own > 1 then (st, "bad-op") else
+      if !(cos == "collect" || cos == "foreach" || cos == "fold" || cos == "last" || cos == "count") then (st, "bad-op") else
+      if st.iters.isEmpty then (st, "noop") else
+      let k := kk % st.iters.length
+      match st.iters[k]? with
+      | none => (st, "bad-op")
+      | some it =>
+        let cast := castOf st.casts st.armed
+        let fuel := st.table.tys.length + 1
+        let r0 : MetaTable.Ran :=
+          if cos == "last" then MetaTable.lastVia cast st.table it.excl fuel ad st.world it.index none 0
+          else if cos == "count" then MetaTable.countVia cast st.table it.excl fuel ad st.world it.index 0
+          else MetaTable.collectVia cast st.table it.excl fuel ad st.world it.index []
+        -- a panic unwinds through `collect` / `fold` / `last`: the partial result is dropped
+        let r := if r0.panic.isSome && cos != "foreach" then r0.unwind else r0
+        let iters' := if own == 1 then eraseIdx' st.iters k else st.iters.set k { it with index := r.index }
+        let st' := { st with world := r.world, iters := iters', guards := st.guards ++ r.kept.map (·.1) }
+        let moved := r.kept.any fun (ty, p) => p.addr != addrOf st.world ty
+        if cos == "count" then
+          (st', match r.panic with
+                | none => s!"count {r.seen}"
+                | some e => showPanic e)
+        else if cos == "last" then
+          (st', match r.panic, r.kept with
+                | some e, _ => showPanic e
+                | none, [(ty, p)] => s!"item {p.vtable} {same p (addrOf st.world ty)}"
+                | none, _ => "none")
+        else
+          let tags := r.kept.map (·.2.vtable)
+          let txt := (if tags.isEmpty then "-" else ",".intercalate (tags.map toString)) ++ (if moved then " moved" else "")
+          (st', match r.panic with
+                | none => s!"items {txt} end"
+                | some e => s!"items {txt} {showPanic e}")
+    | _, _, _ => (st, "bad-op")
+  | ["zip", ks, ms] =>
+    match ks.toNat?, ms.toNat? with
+    | some kk, some m =>
+      if m > 1 then (st, "bad-op") else
+      if st.iters.isEmpty then (st, "noop") else
+      let k := kk % st.iters.length
+      match st.iters[k]? with
+      | none => (st, "bad-op")
+      | some it =>
+        let cast := castOf st.casts st.armed
+        let r := MetaTable.zipN cast st.table it.excl (m == 1) (st.table.tys.length + 1) st.world it.index 0 []
+        -- a panic unwinds through `collect`: the pairs so far are dropped
+        let flat := r.pairs.foldr (fun (a, b) acc => a :: b :: acc) []
+        let w' := if r.panic.isSome then flat.foldl (fun w e => w.release e.1) r.world else r.world
+        let keptTys := if r.panic.isSome then [] else flat.map (·.1)
+        let moved := !r.panic.isSome && flat.any fun (ty, p) => p.addr != addrOf st.world ty
+        let st' := { st with world := w', iters := eraseIdx' st.iters k, guards := st.guards ++ keptTys }
+        let txt := if r.panic.isSome || r.pairs.isEmpty then "-"
+          else ",".intercalate (r.pairs.map fun (a, b) => s!"{a.2.vtable}:{b.2.vtable}")
+        (st', match r.panic with
+              | none => s!"pairs {txt}{if moved then " moved" else ""} end"
+              | some e => s!"pairs - {showPanic e}")
+    | _, _ => (st, "bad-op")
   | ["iter"] => ({ st with iters := st.iters ++ [st.table.iter false] }, "ok")
   | ["itermut"] => ({ st with iters := st.iters ++ [st.table.iter true] }, "ok")
   | ["end"] =>
